@@ -151,6 +151,27 @@ def oracle_criterion(case, rec):
     if ok2:
         rec.close(ac, _dir_clustering(A, past=False),
                   "advanced_clustering_def", rtol=1e-12)
+    # the same queries again on the same object, in the opposite order: a
+    # measure must not disturb the others (nor itself)
+    ok2, ac2 = rec.call("advanced_local_clustering_again",
+                        vg.advanced_local_clustering)
+    ok1, rc2 = rec.call("retarded_local_clustering_again",
+                        vg.retarded_local_clustering)
+    if ok1:
+        rec.close(rc2, _dir_clustering(A, past=True),
+                  "retarded_clustering_def_when_repeated", rtol=1e-12)
+    if ok2:
+        rec.close(ac2, _dir_clustering(A, past=False),
+                  "advanced_clustering_def_when_repeated", rtol=1e-12)
+    ok1, rd2 = rec.call("retarded_degree_again", vg.retarded_degree)
+    ok2, ad2 = rec.call("advanced_degree_again", vg.advanced_degree)
+    if ok1 and ok2:
+        rec.equal(rd2 + ad2, A.sum(axis=1),
+                  "retarded_plus_advanced_degree_after_clustering")
+        rec.equal(rd2, np.array([A[i, :i].sum() for i in range(n)]),
+                  "retarded_degree_def_after_clustering")
+        rec.equal(ad2, np.array([A[i, i + 1:].sum() for i in range(n)]),
+                  "advanced_degree_def_after_clustering")
 
 
 def _dir_clustering(A, past):
